@@ -108,7 +108,7 @@ def regions(desc, geo=None):
         if b.get("align") == "post preamble":
             return True
         return any(_post(b[k]) for k in ("b", "outer", "inner") if k in b) or any(_post(x) for x in b.get("bs", []))
-    if _post(desc["block"]) and any(_is_complex(fs, f["id"]) and f["id"] not in crossed for f in desc["factors"]):
+    if _post(desc["block"]) and any(_is_complex(fs, f["id"]) for f in desc["factors"]):
         out.add("F22")
     # Exclude on a within-trial derived level whose inputs straddle a crossing: the trial count and the
     # Cross / RandomGen bookkeeping use different notions of "excluded combination"
@@ -184,12 +184,23 @@ def multiset(seqs):
     return out
 
 
-def gen_cases(ctx, budget_s, composite=True, max_trials=6, gen_fn=None):
+def gen_cases(ctx, budget_s, composite=True, max_trials=6, gen_fn=None, corpus=True):
     g = D.Gen(ctx.rng, max_trials=max_trials)
     t_end = ctx.elapsed() + budget_s
     n = 0
+    pending = []
+    if corpus and gen_fn is None:
+        pending = O.corpus_designs(ctx.big())
+        # rotate with the seed so that a budget-limited run does not always see the same prefix
+        k = (ctx.seed * 37) % max(len(pending), 1)
+        pending = pending[k:] + pending[:k]
+    t_corpus = ctx.elapsed() + budget_s * 0.6
     while ctx.elapsed() < t_end:
-        desc = gen_fn(g) if gen_fn else O.gen_design(g, composite=composite)
+        if pending and ctx.elapsed() < t_corpus:
+            desc = pending.pop(0)
+            ctx.count("design.corpus")
+        else:
+            desc = gen_fn(g) if gen_fn else O.gen_design(g, composite=composite)
         case = O.Case(ctx, desc)
         n += 1
         if not case.build():
